@@ -70,6 +70,13 @@ def gen_case(rng, tier, idx):
         cfg["simulation"]["sessions"].append({"sessionName": i, "iterationSteps": st, "withOrderPlacement": True,
                                               "withOrderExecution": rng.random() < 0.85, "withPrint": False,
                                               "maxNormalOrders": rng.choice([2, 5]), "maxHighFrequencyOrders": 1})
+    if rng.random() < 0.2:
+        # the public outstanding_shares attribute of a component is changed during the run (e.g. a share issue)
+        t_ch = rng.randrange(1, max(2, total))
+        cfg["ISSUE"] = {"class": "ProbeEvent", "hooks": [{"type": "market", "before": True, "time": None}],
+                        "fundChanges": [{"time": t_ch, "at_market": comps[0], "market": rng.choice(comps), "what": "shares",
+                                         "value": rng.choice([1, 12345, 10 ** 7])}]}
+        cfg["simulation"]["sessions"][0].setdefault("events", []).append("ISSUE")
     if rng.random() < 0.45:
         cfg["SHOCK"] = {"class": "FundamentalPriceShock", "target": rng.choice(comps),
                         "triggerTime": rng.randrange(cfg["simulation"]["sessions"][0]["iterationSteps"]),
@@ -110,7 +117,8 @@ class C17Monitor:
     def comps(self, im):
         cfg = self.case["config"][im.name]
         ms = [self.sim.name2market[n] for n in cfg["markets"]]
-        sh = [self.case["config"][n]["outstandingShares"] for n in cfg["markets"]]
+        # the weights are the components' outstanding shares as they are now (a public attribute)
+        sh = [m.outstanding_shares for m in ms]
         return ms, sh
 
     def on_event(self, ev):
@@ -124,7 +132,8 @@ class C17Monitor:
             for im in self.idx:
                 ms, sh = self.comps(im)
                 got = im.get_components()
-                if [m.name for m in got] != [m.name for m in ms] or [m.outstanding_shares for m in got] != sh:
+                if [m.name for m in got] != [m.name for m in ms] or [m.outstanding_shares for m in got] != \
+                        [self.case["config"][n]["outstandingShares"] for n in self.case["config"][im.name]["markets"]]:
                     res.violation("components", "index-components-differ-from-configuration",
                                   {"index": im.name, "got": [m.name for m in got]})
         elif k == "time_exc" and hasattr(ev["mkt"], "get_components"):
@@ -226,4 +235,6 @@ def run_case(case, res):
         res.count("class/component_shock_run")
     if mon.moved:
         res.count("class/component_prices_moved_run")
+    if "ISSUE" in cfg:
+        res.count("class/shares_changed_during_run")
     res.seen(canon_hash([case["seed"], sh]), len(set(sh)) > 1 and mon.moved)
